@@ -109,7 +109,7 @@ def _pair_task(args):
     ia, ib, mode = args
     workdir = tempfile.mkdtemp(prefix="c03r-", dir=os.environ.get("VERIF_SCRATCH_BASE", "/var/tmp"))
     try:
-        A, B = c03.alphabet(1)[ia], c03.alphabet(2)[ib]
+        A, B = c03.alphabet(1, "rdb_conns")[ia], c03.alphabet(2, "rdb_conns")[ib]
         out = []
         t = execute([A, B], c03.preempt_at(10 ** 9), workdir)
         n = t["lines"][0] + 1
@@ -136,7 +136,7 @@ def _random_task(args):
             progs = []
             for w in range(1, nw + 1):
                 p = []
-                for entry in rng.sample(c03.alphabet(w), rng.choice([1, 2])):    # no repeated set_param (D10)
+                for entry in rng.sample(c03.alphabet(w, "rdb_conns"), rng.choice([1, 2])):    # no repeated set_param (D10)
                     p += entry
                 progs.append(p)
             t = execute(progs, c03.random_schedule(rng.getrandbits(30), rng.choice([0.2, 0.5])), workdir)
@@ -154,7 +154,7 @@ def _crash_task(args):
     ia, mode = args
     workdir = tempfile.mkdtemp(prefix="c05r-", dir=os.environ.get("VERIF_SCRATCH_BASE", "/var/tmp"))
     try:
-        A = c03.alphabet(1)[ia]
+        A = c03.alphabet(1, "rdb_conns")[ia]
         B = [{"a": "create_trial", "s": 1, "tm": {"has": 0}}, {"a": "set_state", "t": 1, "state": "FAIL", "values": sd.NONE_V},
              {"a": "get_all_trials", "s": 1, "states": ["ALL"], "dc": 1, "as_list": 0}]
         t = execute([A, []], c03.preempt_at(10 ** 9), workdir)
@@ -175,7 +175,7 @@ def _crash_task(args):
 def run_crash_part(ctx):
     from . import c03
 
-    tasks = [(ia, "all") for ia in range(len(c03.alphabet(1))) if not c03.alphabet(1)[ia][0]["a"].startswith("get_")]
+    tasks = [(ia, "all") for ia in range(len(c03.alphabet(1, "rdb_conns"))) if not c03.alphabet(1, "rdb_conns")[ia][0]["a"].startswith("get_")]
     traces = []
     with cf.ProcessPoolExecutor(max_workers=16) as ex:
         for res in ex.map(_crash_task, tasks):
@@ -272,11 +272,11 @@ def judge(ctx, traces, label):
 def run_part(ctx):
     from . import c03
 
-    n_al = len(c03.alphabet(1))
+    n_al = len(c03.alphabet(1, "rdb_conns"))
     tasks = []
     for ia in range(n_al):
         for ib in range(n_al):
-            if ctx.quick and (ia * 5 + ib * 3 + ctx.seed) % 4 != 0:
+            if ctx.quick and (ia * 5 + ib * 3 + ctx.seed) % 5 != 0:
                 continue
             tasks.append((ia, ib, "sample" if ctx.quick else "all"))
     traces = []
@@ -298,7 +298,7 @@ def replay(ctx, data):
         if r["family"] == "rdb-crash":
             t = [x for x in _crash_task((r["a"], "all")) if x["replay"]["i"] == r["i"]][0]
         elif r["family"] == "rdb-pair":
-            t = execute([c03.alphabet(1)[r["a"]], c03.alphabet(2)[r["b"]]], c03.preempt_at(r["i"]), workdir)
+            t = execute([c03.alphabet(1, "rdb_conns")[r["a"]], c03.alphabet(2, "rdb_conns")[r["b"]]], c03.preempt_at(r["i"]), workdir)
         else:
             t = _random_task((r["seed"], r["index"] + 1))[r["index"]]
         t["replay"] = r
